@@ -500,6 +500,28 @@ def _finding_matches(f: dict, info: dict) -> bool:
     return True
 
 
+_SQLITE_LIT: dict = {}
+
+
+def sqlite_literal_exact(x) -> bool:
+    """Does this SQLite read the decimal literal repr(x) as the double x?  SQLite 3.40.1 parses a few decimal literals one ulp
+    high (`select 0.499889 = ?` bound to the Python float is false; 7 of 20000 random six-digit literals).  Splink inlines
+    thresholds as text, so on SQLite `match_probability >= <such a literal>` drops an edge whose probability equals the threshold:
+    an engine defect (trusted base), excluded from the SQLite cases and counted, never reported."""
+    import sqlite3
+
+    key = repr(float(x))
+    if key not in _SQLITE_LIT:
+        con = sqlite3.connect(":memory:")
+        try:
+            _SQLITE_LIT[key] = bool(con.execute(f"select {key} = ?", (float(x),)).fetchone()[0])
+        except sqlite3.Error:
+            _SQLITE_LIT[key] = True
+        finally:
+            con.close()
+    return _SQLITE_LIT[key]
+
+
 def scratch_dir() -> Path:
     d = VERIF / ".scratch" / str(os.getpid())
     d.mkdir(parents=True, exist_ok=True)
